@@ -181,6 +181,7 @@ func (p *Prog) Flatten(anchors map[string]bool) ([]string, error) {
 	pick := func(callee *ssa.Function) bool {
 		return callee != nil && inMod(callee) && ssa.CanInline(callee) && !recursive[callee] && !anchors[p.AnchorName(callee)]
 	}
+	defer func() { p.markDeadHelpers(anchors, inMod) }()
 	var log []string
 	var funcs []*ssa.Function
 	funcs = append(funcs, p.srcFuncs...)
@@ -223,6 +224,9 @@ func (p *Prog) Flatten(anchors map[string]bool) ([]string, error) {
 			if f.ThreadConstantBranches(nonNil) == 0 {
 				break
 			}
+			f.Rebuild()
+		}
+		if f.SplitSharedReturns() {
 			f.Rebuild()
 		}
 		if err := f.SanityCheck(); err != nil {
@@ -315,4 +319,58 @@ func (p *Prog) sentinelGlobals() map[*ssa.Global]bool {
 		}
 	}
 	return out
+}
+
+// markDeadHelpers records the non-anchor, unexported, declared functions that
+// no function still refers to once their calls were inlined: the rule sets
+// must not look at their now unused bodies (their code is judged where it was
+// inlined).
+func (p *Prog) markDeadHelpers(anchors map[string]bool, inMod func(*ssa.Function) bool) {
+	cand := map[*ssa.Function]bool{}
+	for _, f := range p.srcFuncs {
+		if f.Parent() == nil && f.Object() != nil && !f.Object().Exported() && !anchors[p.AnchorName(f)] && f.Synthetic == "" && f.Name() != "init" && f.Name() != "main" {
+			cand[f] = true
+		}
+	}
+	if len(cand) == 0 {
+		return
+	}
+	live := map[*ssa.Function]bool{}
+	var work []*ssa.Function
+	for _, f := range p.srcFuncs {
+		if !cand[Root(f)] {
+			work = append(work, f)
+		}
+	}
+	var rands []*ssa.Value
+	for len(work) > 0 {
+		f := work[len(work)-1]
+		work = work[:len(work)-1]
+		for _, b := range f.Blocks {
+			for _, in := range b.Instrs {
+				rands = in.Operands(rands[:0])
+				for _, r := range rands {
+					g, ok := (*r).(*ssa.Function)
+					if !ok {
+						continue
+					}
+					if o := g.Origin(); o != nil {
+						g = o
+					}
+					if cand[g] && !live[g] {
+						live[g] = true
+						for _, c := range Closures(g) {
+							work = append(work, c)
+						}
+					}
+				}
+			}
+		}
+	}
+	p.deadHelpers = map[*ssa.Function]bool{}
+	for f := range cand {
+		if !live[f] {
+			p.deadHelpers[f] = true
+		}
+	}
 }
